@@ -2,13 +2,16 @@ import OsacaVerif.Driver.Proto
 import OsacaVerif.Driver.C12
 open OsacaVerif OsacaVerif.Proto
 
+/-- one handler per property module; the first that recognises the op answers -/
+def handlers : List (Req → Option String) := [
+  Driver.C12.handle
+]
+
 def dispatch (r : Req) : String :=
-  match r.op with
-  | "ping" => "pong"
-  | _ =>
-    match Driver.C12.handle r with
-    | some s => s
-    | none => "bad-op"
+  if r.op == "ping" then "pong" else
+  match handlers.findSome? (fun h => h r) with
+  | some s => s
+  | none => "bad-op"
 
 partial def loop (hin : IO.FS.Stream) (hout : IO.FS.Stream) : IO Unit := do
   let line ← hin.getLine
